@@ -25,6 +25,7 @@ CTXA_MACROS = [
     ('me', ['e{^_}', 'm']),             # embellishments (xparse 'e'), followed by a mandatory argument
     ('lvi', 'legacy-verb'),             # pylatexenc-2 style \verb-like macro with a leading optional argument
     ('setx', 'after-delta'),            # no arguments; its spec returns a parsing-state delta for what follows
+    ('lst', 'legacy-std:{*[{'),         # pylatexenc-2 spelling: args_parser=MacroStandardArgsParser('{*[{')
 ]
 CTXA_ENVS = [
     ('ea', ['{']),
@@ -65,6 +66,8 @@ def ctx_a(with_unknown=True):
         if a == 'legacy-verb':
             macros.append(macrospec.MacroSpec(n, args_parser=macrospec.VerbatimArgsParser(
                 verbatim_arg_type='verb-macro', verbatim_argspec='[')))
+        elif isinstance(a, str) and a.startswith('legacy-std:'):
+            macros.append(macrospec.MacroSpec(n, args_parser=macrospec.MacroStandardArgsParser(a.split(':', 1)[1])))
         elif a == 'after-delta':
             macros.append(macrospec.MacroSpec(n, arguments_spec_list=[], make_after_parsing_state_delta=_after))
         else:
@@ -92,11 +95,24 @@ def ctx_x():
     if 'X' in _CACHE:
         return _CACHE['X']
     from pylatexenc import macrospec
+    from pylatexenc.latexnodes import LatexArgumentSpec
     base = macrospec.LatexContextDb()
     base.add_context_category(
         'base',
-        macros=[macrospec.MacroSpec('textbf', '{')],
+        macros=[macrospec.MacroSpec('textbf', '{'),
+                # a text-mode argument whose delta also defines a macro local to the argument
+                macrospec.MacroSpec('tx', arguments_spec_list=[LatexArgumentSpec(
+                    '{', parsing_state_delta=macrospec.ParsingStateDeltaExtendLatexContextDb(
+                        extend_latex_context=dict(macros=[macrospec.MacroSpec('lt', '{')]),
+                        set_attributes=dict(in_math_mode=False, math_mode_delimiter=None)))])],
         environments=[
+            # a math environment whose body delta also defines a macro local to the body
+            macrospec.EnvironmentSpec(
+                'emx', '',
+                body_parsing_state_delta=macrospec.ParsingStateDeltaExtendLatexContextDb(
+                    extend_latex_context=dict(macros=[macrospec.MacroSpec('lm', '{')]),
+                    set_attributes=dict(in_math_mode=True, math_mode_delimiter=None)),
+            ),
             macrospec.EnvironmentSpec(
                 'elist', '',
                 body_parsing_state_delta=macrospec.ParsingStateDeltaExtendLatexContextDb(
@@ -123,6 +139,8 @@ def ctx_d():
 
 
 def get(name):
+    if name == 'N':
+        return None         # no explicit context: the walker builds a new default database itself
     if name in ('D', 'C'):
         return ctx_d()
     if name == 'A':
